@@ -2161,6 +2161,12 @@ func (ctx Ctx) callExprInterface(cvs []coq.Decl, r *ast.CallExpr) []coq.Decl {
 			if _, ok := ctx.typeOf(arg).Underlying().(*types.Struct); ok {
 				cv := coq.StructToInterface{Struct: structName, Interface: interfaceName, Methods: methods}
 				if len(cv.Coq(true)) > 1 && len(cv.MethodList()) > 0 {
+					// the conversion helper mentions the interface descriptor
+					// and every method of the struct
+					ctx.dep.addDep(interfaceName)
+					for _, m := range methods {
+						ctx.dep.addDep(coq.MethodName(structName, m))
+					}
 					cvs = append(cvs, cv)
 				}
 			}
